@@ -140,7 +140,8 @@ LeavesG7c ==
      InC(At(y, "ref"), Concat(At(x, "refs")), "contains"),
      InC(At(y, "n"), Concat(At(x, "t")), "in_"),
      InC(At(y, "n"), Concat(At(x, "n")), "in_"),
-     InC(y, Concat(At(x, "ref")), "in_") >>
+     InC(y, Concat(At(x, "ref")), "in_"),
+     InC(At(y, "t"), Concat(At(x, "pairs")), "in_") >>      \* inner elements that are themselves iterable stay whole
   \o Some(CoreLeaves(y), 4)
 
 (* ---- G6: sub-queries.  a sub-query over x or over (x, y) used as a     ----*)
@@ -161,7 +162,10 @@ LeavesG6 ==
   \* sub-query over the other variable / over both (set_of)
   \o [j \in 1..Len(InnerG6y) |-> SubQ("entity", <<y>>, InnerG6y[j])]
   \o << SubQ("set_of", <<x, y>>, CmpC("eq", At(x, "n"), At(y, "m"))),
-        SubQ("set_of", <<x, y>>, CmpC("lt", At(x, "n"), At(y, "n"))) >>
+        SubQ("set_of", <<x, y>>, CmpC("lt", At(x, "n"), At(y, "n"))),
+        \* a disjunction inside the sub-query that binds a variable the sub-query does not select
+        SubQ("entity", <<x>>, OrC(CmpC("eq", At(x, "ref"), y), CmpC("eq", At(y, "ref"), x), "fn")),
+        SubQ("entity", <<x>>, OrC(CmpC("eq", At(x, "n"), At(y, "m")), CmpC("lt", At(y, "n"), At(x, "n")), "fn")) >>
   \* sub-query as a comparison operand: it stands for its selected variable, restricted to its solutions
   \o [j \in 1..3 |-> CmpC("eq", At(SubE(2, InnerG6y[j], "an"), "n"), At(x, "m"))]
   \o << CmpC("eq", SubE(2, InnerG6y[1], "an"), At(x, "ref")),
